@@ -116,23 +116,23 @@ Section Sim.
     intros H. cbn [raw_collect_st]. rewrite grun_bind, H. rewrite raw_collect_st_acc. reflexivity.
   Qed.
 
-  (** ** Complete points pending in the raw iterator's queues are what it
-      delivers next or leaves over *)
+  (** ** Complete points pending in the raw iterator's queues, no more than the
+      point cloud still has, are what it delivers next *)
   Lemma pending_prefix : forall f q records read P qsP s s' raws itf,
     pop_raws (length P) (q_queues q) = Ok (P, qsP) -> N.of_nat (length P) <= qr_available q ->
+    N.of_nat (length P) <= records - read ->
     grun step (raw_collect_st f log_size (mkRaw q records read) []) s = (s', Ok (raws, itf)) ->
-    exists tail, raws ++ leftover itf = P ++ tail.
+    exists tail, raws = P ++ tail.
   Proof.
-    induction f as [|f IH]; intros q records read P qsP s s' raws itf HP Hle H; [discriminate|].
+    induction f as [|f IH]; intros q records read P qsP s s' raws itf HP Hle Hrem H; [discriminate|].
     destruct (records <=? read) eqn:E.
-    - apply N.leb_le in E. cbn [raw_collect_st] in H. rewrite grun_bind, (raw_next_done _ _ _ _ E) in H. cbn [grun] in H.
-      injection H as _ <- <-. cbn [app]. eapply pending_leftover; eassumption.
+    - destruct P as [|v P']; [exists raws; reflexivity|]. cbn [length] in Hrem. lia.
     - destruct P as [|v P'].
-      + exists (raws ++ leftover itf). reflexivity.
+      + exists raws. reflexivity.
       + cbn [length pop_raws] in HP.
         destruct (pop_fronts (q_queues q)) as [[vs qs1]| |] eqn:Epop; try discriminate.
         destruct (pop_raws (length P') qs1) as [[P1 q1]| |] eqn:E1; try discriminate.
-        injection HP as -> -> ->. cbn [length] in Hle.
+        injection HP as -> -> ->. cbn [length] in Hle, Hrem.
         assert (Hav1 : 1 <= avail (q_queues q)) by (rewrite <- qr_available_avail; lia).
         pose proof (avail_pop_fronts _ _ _ Hav1 Epop) as Hav.
         rewrite <- qr_available_avail in Hav, Hav1.
@@ -143,7 +143,8 @@ Section Sim.
         injection H as _ <- <-.
         assert (Hk : N.of_nat (length P') <= qr_available (mkQr (q_proto q) (q_streams q) qs1)).
         { rewrite qr_available_avail. cbn [q_queues]. lia. }
-        destruct (IH (mkQr (q_proto q) (q_streams q) qs1) records (read + 1) P' qsP s s2 l it2 E1 Hk E2) as [tail Ht].
+        assert (Hr : N.of_nat (length P') <= records - (read + 1)) by lia.
+        destruct (IH (mkQr (q_proto q) (q_streams q) qs1) records (read + 1) P' qsP s s2 l it2 E1 Hk Hr E2) as [tail Ht].
         exists tail. cbn [app]. f_equal. exact Ht.
   Qed.
 
@@ -187,7 +188,7 @@ Section Sim.
 
   Lemma simple_next_refill q read s s1 q1 pts0 q' p rest : read < pc_records pc ->
     grun step (refill (refill_fuel log_size) q) s = (s1, Ok q1) ->
-    pop_points (N.to_nat (qr_available q1)) (mk q read []) q1 = Ok (pts0, q') ->
+    pop_points (N.to_nat (N.min (qr_available q1) (pc_records pc - read))) (mk q read []) q1 = Ok (pts0, q') ->
     map post pts0 = p :: rest ->
     grun step (simple_next fcos fsin fasin fatan2 log_size (mk q read [])) s =
     (s1, Ok (mk q' (read + 1) rest, Item p)).
@@ -230,7 +231,7 @@ Section Sim.
   Lemma sim : forall f q_r q_s P pts read s s' raws itf,
     related q_r q_s P pts ->
     grun step (raw_collect_st f log_size (mkRaw q_r (pc_records pc) read) []) s = (s', Ok (raws, itf)) ->
-    Forall inset (raws ++ leftover itf) ->
+    Forall inset raws ->
     exists out, grun step (simple_collect fcos fsin fasin fatan2 f log_size (mk q_s read pts) []) s = (s', Ok out) /\
                 Forall2 viewed raws out.
   Proof.
@@ -256,23 +257,24 @@ Section Sim.
           try discriminate.
         injection H as <- <- <-. cbn [app] in HI.
         destruct (refill_wf step _ _ _ _ _ Hrefill Hwf) as (Hwf1 & Hp1 & Hav1).
-        set (a := qr_available q1) in *.
-        assert (Ha0 : N.of_nat (N.to_nat a) <= avail (q_queues q1)) by (unfold a; rewrite qr_available_avail; lia).
+        set (a := N.min (qr_available q1) (pc_records pc - read)) in *.
+        assert (Ha0 : N.of_nat (N.to_nat a) <= avail (q_queues q1)) by (unfold a; rewrite <- qr_available_avail; lia).
         destruct (pop_raws_avail (N.to_nat a) (q_queues q1) Ha0) as (Pn & qsn & HPn & HLn & Havn).
         destruct (N.to_nat a) as [|k] eqn:Ek; [lia|].
         pose proof HPn as HPn0. cbn [pop_raws] in HPn. rewrite Epop in HPn.
         destruct (pop_raws k qs1) as [[Pn' qn']| |] eqn:En'; try discriminate. injection HPn as <- <-.
         cbn [length] in HLn. injection HLn as HLn.
-        assert (Ha1 : 1 <= avail (q_queues q1)) by (rewrite <- qr_available_avail; fold a; lia).
+        assert (Ha1 : 1 <= avail (q_queues q1)) by (rewrite <- qr_available_avail; lia).
         pose proof (avail_pop_fronts _ _ _ Ha1 Epop) as Hav2.
-        rewrite <- qr_available_avail in Hav2. fold a in Hav2.
+        rewrite <- qr_available_avail in Hav2.
         assert (Hk : N.of_nat (length Pn') <= qr_available (mkQr (q_proto q1) (q_streams q1) qs1)).
         { rewrite qr_available_avail. cbn [q_queues]. lia. }
         rewrite <- HLn in En'.
-        destruct (pending_prefix f (mkQr (q_proto q1) (q_streams q1) qs1) (pc_records pc) (read + 1) Pn' qn' s1' s2 l it2 En' Hk E2) as [tail Ht].
+        assert (Hrem : N.of_nat (length Pn') <= pc_records pc - (read + 1)) by (unfold a in Ek; lia).
+        destruct (pending_prefix f (mkQr (q_proto q1) (q_streams q1) qs1) (pc_records pc) (read + 1) Pn' qn' s1' s2 l it2 En' Hk Hrem E2) as [tail Ht].
         assert (HIn : Forall inset (v :: Pn')).
         { inversion HI as [|? ? Hv HI']; subst. constructor; [exact Hv|].
-          rewrite Ht in HI'. apply Forall_app in HI'. apply HI'. }
+          apply Forall_app in HI'. apply HI'. }
         destruct Hwf1 as [Hlen1 HF1].
         destruct (pop_raws_typed _ _ _ _ _ HF1 HPn0) as [HT _].
         assert (Hpd : q_proto q1 = proto_dtypes pc) by congruence.
@@ -359,15 +361,19 @@ Section Top.
       eexists; (split; [reflexivity|discriminate]).
   Qed.
 
-  Theorem simple_is_view : forall pc o log_size fuel s s' raws itf rgs,
-    grun step (raw_read_all_st fuel log_size pc) s = (s', Ok (raws, itf)) ->
+  Theorem simple_is_view : forall pc o log_size fuel s s' raws rgs,
+    grun step (raw_read_all fuel log_size pc) s = (s', Ok raws) ->
     prepare_ranges pc = Ok rgs ->
     index_records_are_integers pc = true ->
-    Forall (fun raw => invalid_states_in_set pc raw = true) (raws ++ leftover itf) ->
+    Forall (fun raw => invalid_states_in_set pc raw = true) raws ->
     exists pts, grun step (simple_read_all fcos fsin fasin fatan2 fuel log_size pc o) s = (s', Ok pts) /\
                 res_all (view fcos fsin fasin fatan2 pc o) raws = Ok pts.
   Proof.
-    intros pc o log_size fuel s s' raws itf rgs Hraw Hrg Hint HI.
+    intros pc o log_size fuel s s' raws rgs Hraw0 Hrg Hint HI.
+    rewrite raw_read_all_fst in Hraw0.
+    destruct (grun step (raw_read_all_st fuel log_size pc) s) as [s0 [[raws0 itf]| |]] eqn:Hraw; cbn [res_map fst] in Hraw0;
+      try discriminate.
+    injection Hraw0 as -> ->.
     unfold raw_read_all_st in Hraw. apply grun_bind_ok in Hraw. destruct Hraw as (s1 & rit & Hnew & Hraw).
     unfold raw_new in Hnew. apply grun_bind_ok in Hnew. destruct Hnew as (s1' & q0 & Hq & Hnew).
     cbn [rret grun] in Hnew. injection Hnew as <- <-.
@@ -388,24 +394,24 @@ Section Top.
     (forall raws, snd (grun step (raw_read_all fuel log_size pc) s) <> Ok raws)
     \/ (forall rgs, prepare_ranges pc <> Ok rgs)
     \/ index_records_are_integers pc = false
-    \/ exists s'' raws itf, grun step (raw_read_all_st fuel log_size pc) s = (s'', Ok (raws, itf)) /\
-         Exists (fun raw => invalid_states_in_set pc raw = false) (raws ++ leftover itf).
+    \/ exists s'' raws, grun step (raw_read_all fuel log_size pc) s = (s'', Ok raws) /\
+         Exists (fun raw => invalid_states_in_set pc raw = false) raws.
   Proof.
     intros pc o log_size fuel s s' e Hs.
-    destruct (grun step (raw_read_all_st fuel log_size pc) s) as [s'' [[raws itf]|k|]] eqn:Hraw.
-    2:{ left. intros raws. rewrite raw_read_all_fst, Hraw. discriminate. }
-    2:{ left. intros raws. rewrite raw_read_all_fst, Hraw. discriminate. }
+    destruct (grun step (raw_read_all fuel log_size pc) s) as [s'' [raws|k|]] eqn:Hraw.
+    2:{ left. intros raws. discriminate. }
+    2:{ left. intros raws. discriminate. }
     right. destruct (prepare_ranges pc) as [rgs|k|] eqn:Hrg.
     2:{ left. discriminate. }
     2:{ left. discriminate. }
     right. destruct (index_records_are_integers pc) eqn:Hint; [|left; reflexivity].
-    right. exists s'', raws, itf. split; [reflexivity|].
-    destruct (forallb (invalid_states_in_set pc) (raws ++ leftover itf)) eqn:Hall.
+    right. exists s'', raws. split; [reflexivity|].
+    destruct (forallb (invalid_states_in_set pc) raws) eqn:Hall.
     - exfalso. rewrite forallb_forall in Hall.
-      destruct (simple_is_view pc o log_size fuel s s'' raws itf rgs Hraw Hrg Hint) as (pts & Hpts & _).
+      destruct (simple_is_view pc o log_size fuel s s'' raws rgs Hraw Hrg Hint) as (pts & Hpts & _).
       { apply Forall_forall. exact Hall. }
       rewrite Hpts in Hs. discriminate.
-    - apply Exists_exists. clear -Hall. induction (raws ++ leftover itf) as [|x l IH]; [discriminate|].
+    - apply Exists_exists. clear -Hall. induction raws as [|x l IH]; [discriminate|].
       cbn [forallb] in Hall. destruct (invalid_states_in_set pc x) eqn:Ex.
       + destruct (IH Hall) as (y & Hy & Hb). exists y. split; [right; exact Hy|exact Hb].
       + exists x. split; [left; reflexivity|exact Ex].
